@@ -229,6 +229,7 @@ class Gen(object):
         self.modname = modname
         self.obls = []
         self.loopno = 0
+        self.loop_ids = None
         self.specfuncs = {}
         self.dropped = []
         self.array_sum = {}
@@ -925,6 +926,8 @@ class Gen(object):
             if isinstance(base, ast.Name):
                 l = path.env[base.id]
                 i = self.expr(tgt.slice, path)
+                if is_int(i):
+                    i = z3.simplify(i)
                 path.env[base.id] = self.store(l, i, val, path, line)
                 return
             if isinstance(base, ast.Subscript) and isinstance(base.value, ast.Name):
@@ -1082,8 +1085,25 @@ class Gen(object):
 
     # ---------------------------------------------------------------- loops
     def loop(self, st, path):
-        k = self.loopno
-        self.loopno += 1
+        # loop ordinal = position in source order (pre-order), independent of how many paths reach it
+        if self.loop_ids is None:
+            self.loop_ids = {}
+            for node in ast.walk(self.fn):
+                pass
+            order = []
+
+            def visit(nodes):
+                for nd in nodes:
+                    if isinstance(nd, (ast.For, ast.While)):
+                        order.append(nd)
+                    for fld in ('body', 'orelse', 'handlers', 'finalbody'):
+                        sub = getattr(nd, fld, None)
+                        if isinstance(sub, list):
+                            visit([x for x in sub if isinstance(x, ast.AST)])
+            visit(self.fn.body)
+            for i, nd in enumerate(order):
+                self.loop_ids[id(nd)] = i
+        k = self.loop_ids[id(st)]
         spec = self.c.get('loops', {}).get(k)
         if spec is None:
             raise Unsupported('loop %d at line %d has no invariant in the contract' % (k, st.lineno))
